@@ -318,7 +318,8 @@ def build():
              methods=["transform"], rowwise=["transform"], alts={"kind": [lambda: "poly-slow", lambda: "poly"]}))
     add(Spec("IntervalRegressor",
              [lambda: mm.IntervalRegressor(LinearRegression(), n_estimators=4),
-              lambda: mm.IntervalRegressor(Ridge(alpha=0.3), n_estimators=3, alpha=0.7, n_jobs=2)],
+              lambda: mm.IntervalRegressor(Ridge(alpha=0.3), n_estimators=3, alpha=0.7, n_jobs=2),
+              lambda: mm.IntervalRegressor(Ridge(alpha=0.2), n_estimators=6, alpha=0.8, n_jobs=3, verbose=True)],
              reg_data, lambda r: reg_data(r, n=25, d=2), methods=["predict", "predict_all", "predict_sorted"],
              rowwise=["predict", "predict_all", "predict_sorted"],
              alts={"estimator": [lambda: Ridge(alpha=1.5)], "n_jobs": [lambda: 2, lambda: None]}))
@@ -363,6 +364,10 @@ def build():
                                              trainable=True),
               lambda: mm.TransferTransformer(__import__("sklearn.decomposition", fromlist=["PCA"]).PCA(
                   n_components=2).fit(numpy.arange(12.0).reshape(4, 3) ** 2), trainable=True),
+              # a learner that goes on from its coefficients and updates them in place
+              lambda: mm.TransferTransformer(__import__("sklearn.linear_model", fromlist=["x"]).SGDRegressor(
+                  warm_start=True, random_state=0, max_iter=5, tol=None, learning_rate="constant", eta0=0.01).fit(
+                      numpy.eye(3), [1.0, 2.0, 3.0]), trainable=True),
               lambda: mm.TransferTransformer(__import__("sklearn.neighbors", fromlist=["x"]).KNeighborsRegressor(
                   n_neighbors=2, algorithm="brute").fit(numpy.eye(3), [1.0, 2.0, 3.0]), trainable=True,
                   copy_estimator=False)],
